@@ -357,4 +357,24 @@ PROPS = {
         "level_text": "Two generator executions per tree and shell are compared on token structure; equal skeletons mean the text stayed inside literals/comments.",
         "level_note": "PowerShell: ' and U+2018/2019/201A/201B delimit single-quoted strings, U+201C/201D/201E double-quoted ones (PowerShell tokenizer rules).",
     },
+    "C15": {
+        "quick_ms": 15000,
+        "thorough_ms": 240000,
+        "floors": {"roundtrip.ok": 20000, "agree.ok": 30000, "agree.err": 30000, "update.ok": 10000, "update.unnamed-field-kept": 10000, "value_enum.names": 1000,
+                   "type.A": 1000, "type.B": 1000, "type.C": 1000, "type.D": 1000, "type.E": 1000, "type.F": 1000, "type.G": 1000, "type.L": 1000},
+        "rule": "corpus of 8 derived Parser types (+ Args, 3 Subcommand enums, 1 ValueEnum) spanning bool / SetFalse bool / counter / T / Option<T> / "
+                "Option<Option<T>> / Vec<T> / Option<Vec<T>> / delimited Vec / fixed-arity Vec / last Vec / positionals / default_value_t / "
+                "default_values_t / default_missing_value / env / rename_all / flatten / global / optional, required, nested and external subcommands / "
+                "value_enum with aliases, renamed and skipped variants. Per type: random values are printed to argv and parsed back (round trip); "
+                "the printed line and 3 mutations of it (token dropped/duplicated/swapped/suffixed, --bogus, -h, --, empty, overflow) are parsed by "
+                "T::try_parse_from and by T::command() + a hand-written extractor (by shape, builder API only): Ok/Err and error kind must agree, "
+                "values must be equal, FromArgMatches on the command's matches too; update frame: x.try_update_from(argv naming a random "
+                "subset of another value's fields) must set exactly the named fields; ValueEnum: every name/alias maps back (both ignore_case "
+                "settings, upper-cased), no duplicates, skipped variant unreachable.",
+        "assumptions": COMMON_ASSUME + ["Vec<Vec<T>> fields need clap's unstable-v5 feature, which would change clap for every monitor: that one shape is not in the corpus",
+                                        "the corpus is fixed at compile time: a change in clap_derive is picked up by recompiling the harness (the check always rebuilds)"],
+        "technique": "differential runtime monitor: derive-generated parser vs command + independent extractor, round-trip and update-frame oracles over generated values",
+        "level_text": "For each corpus type every generated value/line is an execution compared between two implementations of the same mapping (macro-generated vs hand-written by shape).",
+        "level_note": "Trusted: the hand-written extractors and printers (c15.rs).",
+    },
 }
